@@ -56,6 +56,15 @@ def writer_outputs(rng, n=6):
         a = abstract_set(rng, nlang=1 if i % 3 else 2, start=4000000, max_lines=2, gap_choices=(2000000, 3000000, 5000000))
         for name, W in writers().items():
             yield name, W().write(build_set(a))
+        if i % 3 == 2:
+            # a caption with a token longer than a CEA-608 row (a URL, a very long word): every writer has to produce a document
+            # its own reader reads
+            u = abstract_set(rng, nlang=1, start=4000000, max_lines=2, gap_choices=(3000000, 5000000))
+            for lang_ in u:
+                s0, e0, ls = u[lang_][0]
+                u[lang_][0] = (s0, e0, ["see https://captions.example.org/archive/2024/episode-17" if rng.random() < 0.5 else "Pneumonoultramicroscopicsilicovolcanoconiosis"] + ls[1:])
+            for name, W in writers().items():
+                yield name, W().write(build_set(u))
         if i % 3 == 1:
             # a programme whose first cue starts at instant 0 (frame 0, 00:00:00.000); not for SCC, which needs lead time
             z = abstract_set(rng, nlang=1, start=0, max_lines=2, gap_choices=(2000000, 3000000))
